@@ -1,10 +1,511 @@
-/- Driver for `kind = "c19"` (and `"c19:…"`) cases. -/
+/- Driver for `kind = "c19"` cases: call sequences through the C API, run on the FFI model
+   (registries, result lists, tag codec, callbacks, argument decoding) on top of the store model. -/
 import Driver.Common
+import AskarModel.Model.Store
+import AskarModel.Model.Like
+import AskarModel.Model.Ffi
 
-open Lean
+open Lean Askar Askar.Wql Askar.Store Askar.Ffi
 
 namespace Driver.C19
 
-def runCase (_j : Json) : Json := jerr "not implemented"
+/-! ### JSON helpers -/
+
+def cmpOfName : String → Option CmpOp
+  | "eq" => some .eq | "neq" => some .neq | "gt" => some .gt | "gte" => some .gte
+  | "lt" => some .lt | "lte" => some .lte | "like" => some .like | _ => none
+
+partial def parseFilter (j : Json) : Query String :=
+  match j with
+  | .obj kvs =>
+    match kvs.toList with
+    | [(k, v)] =>
+      match k with
+      | "and" => .and ((asArr v).map parseFilter)
+      | "or" => .or ((asArr v).map parseFilter)
+      | "not" => .not (parseFilter v)
+      | "in" => match asArr v with
+        | [n, vs] => .isIn (asStr n) ((asArr vs).map asStr)
+        | _ => default
+      | "exist" => .exist ((asArr v).map asStr)
+      | _ => match cmpOfName k, asArr v with
+        | some op, [n, x] => .cmp op (asStr n) (asStr x)
+        | _, _ => default
+    | _ => default
+  | _ => default
+
+def insertSorted {α} (lt : α → α → Bool) (x : α) : List α → List α
+  | [] => [x]
+  | y :: ys => if lt y x then y :: insertSorted lt x ys else x :: y :: ys
+
+def sortBy {α} (lt : α → α → Bool) (l : List α) : List α := l.foldr (insertSorted lt) []
+
+def strLt (a b : String) : Bool := Bytes.lt (utf8 a) (utf8 b)
+
+/-- a C string argument: null | "text" | {"bad": hex} (bytes that are not UTF-8) -/
+def cstr (j : Json) (k : String) : CStr :=
+  match j.getObjVal? k with
+  | .ok (.str s) => .utf8 s
+  | .ok (.obj _) => .invalid ""
+  | _ => .null
+
+def jcode (c : Code) : Json := .str c.name
+def jerrE (e : Err) : Json := Json.mkObj [("err", .str (Code.ofErr e).name)]
+
+/-- result of an asynchronous entry point: return code and what the callback received -/
+def jres (r : Code) (cb : Json) : Json := Json.mkObj [("r", jcode r), ("cb", cb)]
+def jsync (r : Code) (v : Json) : Json := Json.mkObj [("r", jcode r), ("v", v)]
+
+/-- canonical form of a tag list as `get_tags` returns it: members in map order, the values of a
+    member sorted (the backend returns a record's tags in unspecified order) -/
+def jtagsCanon (tags : List Tag) : Json :=
+  if tags.isEmpty then .null else
+  match serializeSet tags with
+  | none => Json.mkObj [("panic", "values[0]")]
+  | some o => .arr (o.map fun (k, v) =>
+      match v with
+      | .single s => Json.arr #[.str k, .bool false, .arr #[.str s]]
+      | .multiple vs => Json.arr #[.str k, .bool true, .arr ((sortBy strLt vs).map Json.str).toArray]).toArray
+
+def jentry (e : Entry) : Json :=
+  Json.mkObj [("c", .str e.cat), ("n", .str e.name), ("v", jvalue e.value), ("t", jtagsCanon e.tags)]
+
+def entryLt (a b : Entry) : Bool :=
+  if a.cat != b.cat then strLt a.cat b.cat else strLt a.name b.name
+
+/-! ### The world -/
+
+structure Backend where
+  db : Db
+  h : Handle
+  active : String
+  wtxn : Option (Nat × Db) := none      -- (session handle, its private copy)
+
+def Backend.view (b : Backend) (s : Nat) : Db :=
+  match b.wtxn with
+  | some (j, copy) => if s == j then copy else b.db
+  | none => b.db
+
+def Backend.lockedByOther (b : Backend) (s : Nat) : Bool :=
+  match b.wtxn with
+  | some (j, _) => s != j
+  | none => false
+
+def Backend.write (b : Backend) (s : Nat) (db' : Db) : Backend :=
+  match b.wtxn with
+  | some (j, _) => if s == j then { b with wtxn := some (j, db') } else b
+  | none => { b with db := db' }
+
+structure SessV where
+  backend : Nat
+  profile : String
+  txn : Bool
+  sess : Option Sess := none
+  deriving Inhabited
+
+structure ScanV where
+  pages : List (List Entry)
+  ordered : Bool
+  deriving Inhabited
+
+inductive Slot
+  | none
+  | handle (h : Nat)
+  | list (l : ResultList Entry) (ordered : Bool)
+  | strs (l : List String)
+  | key (alg : String)
+  deriving Inhabited
+
+structure World where
+  stores : ResMap Nat := {}
+  sessions : ResMap SessV := {}
+  scans : ResMap ScanV := {}
+  backends : Array Backend := #[]
+  slots : Array Slot := #[]
+
+/-- a store / session / scan handle argument -/
+def handleArg (w : World) (counter : Nat) (j : Json) : Nat :=
+  match j.getObjVal? "h" with
+  | .ok hj =>
+    match hj.getObjVal? "slot" with
+    | .ok s =>
+      match w.slots[(s.getNat?).toOption.getD 0]? with
+      | some (.handle h) => h
+      | _ => 0
+    | .error _ =>
+      match str! hj "raw" with
+      | "max" => usizeMod - 1
+      | "unissued" => counter + 1000000
+      | _ => 0
+  | .error _ => 0
+
+/-- a list / key pointer argument (`none` = NULL) -/
+def slotArg (w : World) (j : Json) : Slot :=
+  match j.getObjVal? "h" with
+  | .ok hj =>
+    match hj.getObjVal? "slot" with
+    | .ok s => (w.slots[(s.getNat?).toOption.getD 0]?).getD .none
+    | .error _ => .none
+  | .error _ => .none
+
+def setSess (w : World) (h : Nat) (sv : SessV) : World :=
+  match w.sessions.map.get h with
+  | some (store, _) => { w with sessions := w.sessions.replace h store sv }
+  | none => w
+
+def setBackend (w : World) (i : Nat) (b : Backend) : World :=
+  { w with backends := w.backends.setIfInBounds i b }
+
+/-- `make_active`: begin the transaction (lazily), resolve the profile key -/
+def activate (w : World) (sh : Nat) (sv : SessV) : World × Except Err (Sess × Backend) :=
+  match w.backends[sv.backend]? with
+  | none => (w, .error .unexpected)
+  | some b =>
+    match sv.sess with
+    | some s => (w, .ok (s, b))
+    | none =>
+      if sv.txn && b.lockedByOther sh then (w, .error .backend) else
+      let b := if sv.txn && b.wtxn.isNone then { b with wtxn := some (sh, b.db) } else b
+      match resolve (b.view sh) b.h sv.profile with
+      | .ok (s, hd) =>
+        let b := { b with h := hd }
+        (setSess (setBackend w sv.backend b) sh { sv with sess := some s }, .ok (s, b))
+      | .error e => (setBackend w sv.backend b, .error e)
+
+def page : Nat := 32
+
+/-- filter argument: text + AST as the generator built it (`none` AST with a text = undecodable) -/
+def filterArg (j : Json) : Except Err (Option (Query String)) :=
+  match (cstr j "ft").asOptStr with
+  | none => .ok none
+  | some _ =>
+    match getD? j "f" with
+    | some f => .ok (some (parseFilter f))
+    | none => .error .input
+
+def jlist (l : ResultList Entry) (ordered : Bool) : Json :=
+  let rows := l.toList
+  let rows := if ordered || rows.length ≤ 1 then rows else sortBy entryLt rows
+  Json.mkObj [("count", jint l.len.toInt), ("rows", .arr (rows.map jentry).toArray)]
+
+def setSlot (w : World) (i : Nat) (s : Slot) : World :=
+  { w with slots := (if w.slots.size ≤ i then w.slots ++ Array.replicate (i + 1 - w.slots.size) Slot.none else w.slots).setIfInBounds i s }
+
+/-- an asynchronous entry point with a mandatory callback: early code, callback check, decoding,
+    then the task -/
+def asyncEntry (w : World) (j : Json) (mode : CbMode) (early : Option Code) (decode : Except Err Unit)
+    (task : World → World × Except Err Json) : World × Json :=
+  let cbGiven := bool! j "cb"
+  -- run the control skeleton of the model on a dummy fate to get the return code
+  let (ret, _) := runEntry (ρ := Unit) mode cbGiven early decode (.completed (.ok ()))
+  if ret != .success then (w, jres ret .null)
+  else
+    let (w', r) := task w
+    let fires : List (Fire Json) := if cbGiven then taskFires {} (.completed r) else []
+    match fires with
+    | [] => (w', jres .success .null)
+    | [f] => (w', jres .success (match f.result with | .ok v => v | .error e => jerrE e))
+    | _ => (w', jres .success (Json.mkObj [("fires", jnat fires.length)]))
+
+def okUnit {ε} : Except ε Unit := .ok ()
+
+def sessionTask (sh : Nat) (f : World → Sess → Backend → Nat → World × Except Err Json) (w : World) : World × Except Err Json :=
+  match w.sessions.borrow sh with
+  | .error e => (w, .error e)
+  | .ok sv =>
+    match activate w sh sv with
+    | (w, .error e) => (w, .error e)
+    | (w, .ok (s, b)) => f w s b sv.backend
+
+def evalOp (w : World) (i : Nat) (j : Json) : World × Json :=
+  let op := str! j "op"
+  match op with
+  | "provision" =>
+    let dec : Except Err Unit :=
+      match (cstr j "uri").intoOptString with
+      | none => .error .input
+      | some _ =>
+        match (cstr j "method").asOptStr with
+        | some m => if m == "raw" then .ok () else .error .unsupported
+        | none => .ok ()
+    asyncEntry w j .required none dec fun w =>
+      let profile := ((cstr j "profile").intoOptString).getD "default"
+      let b : Backend := { db := { profiles := [⟨1, profile, 0⟩] }, h := { cache := [(profile, 1, 0)], nextKey := 1 }, active := profile }
+      let bi := w.backends.size
+      let (h, stores) := w.stores.insert 0 bi
+      (setSlot { w with stores := stores, backends := w.backends.push b } i (.handle h), .ok (Json.mkObj [("h", jnat h)]))
+  | "store_close" =>
+    let h := handleArg w w.stores.counter j
+    asyncEntry w j .optional none okUnit fun w =>
+      match w.stores.remove h with
+      | (none, _) => (w, .error .input)
+      | (some _, stores) =>
+        let sessions := (w.sessions.removeAll h).getD w.sessions
+        let scans := (w.scans.removeAll h).getD w.scans
+        ({ w with stores := stores, sessions := sessions, scans := scans }, .ok "ok")
+  | "session_start" =>
+    let h := handleArg w w.stores.counter j
+    asyncEntry w j .required none okUnit fun w =>
+      match w.stores.borrow h with
+      | .error e => (w, .error e)
+      | .ok bi =>
+        match w.backends[bi]? with
+        | none => (w, .error .unexpected)
+        | some b =>
+          -- `Store::session` / `Store::transaction` ping the new session: the profile is resolved
+          -- (and the transaction begun) before the handle is issued; on failure nothing is kept
+          let profile := ((cstr j "profile").intoOptString).getD b.active
+          let txn := bool! j "txn"
+          let sh := (nextHandle w.sessions.counter).1
+          if txn && b.lockedByOther sh then (w, .error .backend) else
+          match resolve b.db b.h profile with
+          | .error e => (w, .error e)
+          | .ok (s, hd) =>
+            match ping b.db s with
+            | .error e => (w, .error e)
+            | .ok _ =>
+              let b := { b with h := hd, wtxn := if txn && b.wtxn.isNone then some (sh, b.db) else b.wtxn }
+              let (sh, sessions) := w.sessions.insert h { backend := bi, profile := profile, txn := txn, sess := some s }
+              (setSlot (setBackend { w with sessions := sessions } bi b) i (.handle sh), .ok (Json.mkObj [("h", jnat sh)]))
+  | "session_close" =>
+    let sh := handleArg w w.sessions.counter j
+    asyncEntry w j .optional none okUnit fun w =>
+      match w.sessions.remove sh with
+      | (none, _) => (w, .ok "ok")     -- "Session not found for closing": Ok(())
+      | (some sv, sessions) =>
+        let w := { w with sessions := sessions }
+        match w.backends[sv.backend]? with
+        | none => (w, .ok "ok")
+        | some b =>
+          match b.wtxn with
+          | some (k, copy) =>
+            if k == sh then
+              let b := if bool! j "commit" then { b with db := copy, wtxn := none } else { b with wtxn := none }
+              (setBackend w sv.backend b, .ok "ok")
+            else (w, .ok "ok")
+          | none => (w, .ok "ok")
+  | "update" =>
+    let sh := handleArg w w.sessions.counter j
+    let dec := decodeUpdate keysBorrowedOnly (int! j "operation") (cstr j "c") (cstr j "n") (cstr j "tt") (int! j "e")
+    asyncEntry w j .required none (dec.map fun _ => ()) fun w =>
+      match dec with
+      | .error e => (w, .error e)
+      | .ok a =>
+        sessionTask sh (fun w s b bi =>
+          if b.lockedByOther sh then (w, .error .backend) else
+          let v := value! j "v"
+          let mop : Op := match a.op with
+            | .insert => .insert 2 a.category a.name v a.tags a.expiry
+            | .replace => .replace 2 a.category a.name v a.tags a.expiry
+            | .remove => .remove 2 a.category a.name
+          let (db', out) := step sqliteLike page 0 s (b.view sh) mop
+          match out with
+          | .ok => (setBackend w bi (b.write sh db'), .ok "ok")
+          | .err e => (w, .error e)
+          | _ => (w, .error .unexpected)) w
+  | "fetch" =>
+    let sh := handleArg w w.sessions.counter j
+    let dec : Except Err (String × String) := do
+      let c ← required (cstr j "c")
+      let n ← required (cstr j "n")
+      pure (c, n)
+    asyncEntry w j .required none (dec.map fun _ => ()) fun w =>
+      match dec with
+      | .error e => (w, .error e)
+      | .ok (c, n) =>
+        sessionTask sh (fun w s b _ =>
+          match doFetch (b.view sh) 0 s 2 c n with
+          | none => (setSlot w i .none, .ok (Json.mkObj [("list", .null)]))
+          | some e =>
+            let l := ResultList.single e
+            (setSlot w i (.list l true), .ok (Json.mkObj [("list", jlist l true)]))) w
+  | "fetch_all" =>
+    let sh := handleArg w w.sessions.counter j
+    let ob := decodeOrderBy (cstr j "order_by")
+    let early := match ob with | .error c => some c | .ok _ => none
+    let ordered := match ob with | .ok b => b | .error _ => false
+    let fa := filterArg j
+    asyncEntry w j .required early (fa.map fun _ => ()) fun w =>
+      match fa with
+      | .error e => (w, .error e)
+      | .ok f =>
+        sessionTask sh (fun w s b _ =>
+          match doFetchAll sqliteLike (b.view sh) 0 s (some 2) (cstr j "c").intoOptString f (decodeLimit (int! j "lim")) (bool! j "desc") with
+          | .error e => (w, .error e)
+          | .ok es =>
+            let l := ResultList.rows es
+            (setSlot w i (.list l ordered), .ok (Json.mkObj [("list", jlist l ordered)]))) w
+  | "count" =>
+    let sh := handleArg w w.sessions.counter j
+    let fa := filterArg j
+    asyncEntry w j .required none (fa.map fun _ => ()) fun w =>
+      match fa with
+      | .error e => (w, .error e)
+      | .ok f =>
+        sessionTask sh (fun w s b _ =>
+          (w, .ok (Json.mkObj [("n", jnat (doCount sqliteLike (b.view sh) 0 s (some 2) (cstr j "c").intoOptString f))]))) w
+  | "remove_all" =>
+    let sh := handleArg w w.sessions.counter j
+    let fa := filterArg j
+    asyncEntry w j .required none (fa.map fun _ => ()) fun w =>
+      match fa with
+      | .error e => (w, .error e)
+      | .ok f =>
+        sessionTask sh (fun w s b bi =>
+          if b.lockedByOther sh then (w, .error .backend) else
+          let (db', n) := doRemoveAll sqliteLike (b.view sh) s (some 2) (cstr j "c").intoOptString f
+          (setBackend w bi (b.write sh db'), .ok (Json.mkObj [("n", jnat n)]))) w
+  | "scan_start" =>
+    let h := handleArg w w.stores.counter j
+    let ob := decodeOrderBy (cstr j "order_by")
+    let early := match ob with | .error c => some c | .ok _ => none
+    let ordered := match ob with | .ok b => b | .error _ => false
+    let fa := filterArg j
+    asyncEntry w j .required early (fa.map fun _ => ()) fun w =>
+      match fa with
+      | .error e => (w, .error e)
+      | .ok f =>
+        match w.stores.borrow h with
+        | .error e => (w, .error e)
+        | .ok bi =>
+          match w.backends[bi]? with
+          | none => (w, .error .unexpected)
+          | some b =>
+            let profile := ((cstr j "profile").intoOptString).getD b.active
+            match resolve b.db b.h profile with
+            | .error e => (w, .error e)
+            | .ok (s, hd) =>
+              let w := setBackend w bi { b with h := hd }
+              match doScan sqliteLike page b.db 0 s (some 2) (cstr j "c").intoOptString f (some (int! j "off")) (decodeLimit (int! j "lim")) (bool! j "desc") with
+              | .error e => (w, .error e)
+              | .ok pages =>
+                let (kh, scans) := w.scans.insert h { pages := pages, ordered := ordered }
+                (setSlot { w with scans := scans } i (.handle kh), .ok (Json.mkObj [("h", jnat kh)]))
+  | "scan_next" =>
+    let kh := handleArg w w.scans.counter j
+    asyncEntry w j .required none okUnit fun w =>
+      match w.scans.map.get kh with
+      | none => (w, .error .input)
+      | some (store, sv) =>
+        match sv.pages with
+        | [] => (setSlot w i .none, .ok (Json.mkObj [("list", .null)]))
+        | p :: rest =>
+          let l := ResultList.rows p
+          let w := { w with scans := w.scans.replace kh store { sv with pages := rest } }
+          (setSlot w i (.list l sv.ordered), .ok (Json.mkObj [("list", jlist l sv.ordered)]))
+  | "scan_free" =>
+    let kh := handleArg w w.scans.counter j
+    ({ w with scans := (w.scans.remove kh).2 }, jres .success .null)
+  | "list_count" =>
+    let nullOut := bool! j "null_out"
+    match slotArg w j with
+    | .list l _ =>
+      match checkOutAndHandle nullOut false with
+      | .error e => (w, jsync (Code.ofErr e) .null)
+      | .ok _ => (w, jsync .success (jint l.len.toInt))
+    | _ =>
+      match checkOutAndHandle nullOut true with
+      | .error e => (w, jsync (Code.ofErr e) .null)
+      | .ok _ => (w, jsync .success .null)
+  | "list_get" =>
+    let nullOut := bool! j "null_out"
+    match slotArg w j with
+    | .list l ordered =>
+      match checkOutAndHandle nullOut false with
+      | .error e => (w, jsync (Code.ofErr e) .null)
+      | .ok _ =>
+        match l.getRow (Int32.ofInt (int! j "idx")) with
+        | .error e => (w, jsync (Code.ofErr e) .null)
+        | .ok e =>
+          if !ordered && l.toList.length > 1 then (w, jsync .success "unordered") else
+          let v : Json := match str! j "field" with
+            | "category" => .str e.cat
+            | "name" => .str e.name
+            | "value" => jvalue e.value
+            | _ => jtagsCanon e.tags
+          (w, jsync .success v)
+    | _ =>
+      match checkOutAndHandle nullOut true with
+      | .error e => (w, jsync (Code.ofErr e) .null)
+      | .ok _ => (w, jsync .success .null)
+  | "list_free" => (setSlot w ((((j.getObjVal? "h").toOption.bind fun hj => (hj.getObjVal? "slot").toOption).bind fun s => s.getNat?.toOption).getD i) .none, jsync .success .null)
+  | "create_profile" =>
+    let h := handleArg w w.stores.counter j
+    asyncEntry w j .required none okUnit fun w =>
+      match w.stores.borrow h with
+      | .error e => (w, .error e)
+      | .ok bi =>
+        match w.backends[bi]? with
+        | none => (w, .error .unexpected)
+        | some b =>
+          if b.wtxn.isSome then (w, .error .backend) else
+          let name := ((cstr j "name").intoOptString).getD ""
+          match createProfile b.db b.h name with
+          | .ok (db, hd) => (setBackend w bi { b with db := db, h := hd }, .ok (Json.mkObj [("name", .str name)]))
+          | .error e => (w, .error e)
+  | "list_profiles" =>
+    let h := handleArg w w.stores.counter j
+    asyncEntry w j .required none okUnit fun w =>
+      match w.stores.borrow h with
+      | .error e => (w, .error e)
+      | .ok bi =>
+        match w.backends[bi]? with
+        | none => (w, .error .unexpected)
+        | some b =>
+          let names := sortBy strLt (b.db.profiles.map (·.name))
+          (setSlot w i (.strs names), .ok (Json.mkObj [("strs", .arr (names.map Json.str).toArray), ("count", jnat names.length)]))
+  | "get_profile_name" =>
+    let h := handleArg w w.stores.counter j
+    asyncEntry w j .required none okUnit fun w =>
+      match w.stores.borrow h with
+      | .error e => (w, .error e)
+      | .ok bi => (w, .ok (Json.mkObj [("name", .str ((w.backends[bi]?.map (·.active)).getD ""))]))
+  | "strlist_get" =>
+    let nullOut := bool! j "null_out"
+    match slotArg w j with
+    | .strs l =>
+      match checkOutAndHandle nullOut false with
+      | .error e => (w, jsync (Code.ofErr e) .null)
+      | .ok _ =>
+        match (ResultList.rows l).getRow (Int32.ofInt (int! j "idx")) with
+        | .error e => (w, jsync (Code.ofErr e) .null)
+        | .ok s => (w, jsync .success (if l.length > 1 then "unordered" else .str s))
+    | _ =>
+      match checkOutAndHandle nullOut true with
+      | .error e => (w, jsync (Code.ofErr e) .null)
+      | .ok _ => (w, jsync .success .null)
+  | "key_generate" =>
+    if bool! j "null_out" then (w, jsync .input .null)
+    else
+      -- `alg.as_opt_str().unwrap_or_default()`, then `KeyAlg::from_str`: unknown names are Unsupported
+      let alg := ((cstr j "alg").asOptStr).getD ""
+      if ["ed25519", "x25519", "a128gcm", "a256gcm", "c20p", "xc20p", "p256", "k256"].contains alg
+      then (setSlot w i (.key alg), jsync .success .null)
+      else (w, jsync .unsupported .null)
+  | "key_get_algorithm" =>
+    let nullOut := bool! j "null_out"
+    match slotArg w j with
+    | .key alg =>
+      match checkOutAndHandle nullOut false with
+      | .error e => (w, jsync (Code.ofErr e) .null)
+      | .ok _ => (w, jsync .success (.str alg))
+    | _ =>
+      match checkOutAndHandle nullOut true with
+      | .error e => (w, jsync (Code.ofErr e) .null)
+      | .ok _ => (w, jsync .success .null)
+  | "insert_key_null" =>
+    -- `askar_session_insert_key` with a NULL key handle: `key_handle.load()?` fails after the callback check
+    asyncEntry w j .required none (.error .input) fun w => (w, .ok "ok")
+  | "raw_key_null_out" =>
+    (w, Json.mkObj [("crash", .bool (generateRawKeyOut true == .segfault))])
+  | _ => (w, jerr "BadOp")
+
+def runCase (j : Json) : Json :=
+  let ops := arr! j "ops"
+  let (_, outs, _) := ops.foldl (fun (acc : World × Array Json × Nat) op =>
+    let (w, outs, i) := acc
+    let (w', o) := evalOp w i op
+    (w', outs.push o, i + 1)) (({} : World), #[], 0)
+  .arr outs
 
 end Driver.C19
